@@ -73,6 +73,9 @@ def invert_flag_name(flag: str) -> str:
 # destructure_overrides (pyproject.toml), transcribed by C17.Model.destructure_overrides: pinned verbatim (docstring dropped)
 DESTRUCTURE_OVERRIDES_SRC = 'def destructure_overrides(toml_data: dict[str, Any]) -> dict[str, Any]:\n    if \'overrides\' not in toml_data[\'mypy\']:\n        return toml_data\n    if not isinstance(toml_data[\'mypy\'][\'overrides\'], list):\n        raise ConfigTOMLValueError(\'tool.mypy.overrides sections must be an array. Please make sure you are using double brackets like so: [[tool.mypy.overrides]]\')\n    result = toml_data.copy()\n    for override in result[\'mypy\'][\'overrides\']:\n        if \'module\' not in override:\n            raise ConfigTOMLValueError(\'toml config file contains a [[tool.mypy.overrides]] section, but no module to override was specified.\')\n        if isinstance(override[\'module\'], str):\n            modules = [override[\'module\']]\n        elif isinstance(override[\'module\'], list):\n            modules = override[\'module\']\n        else:\n            raise ConfigTOMLValueError(\'toml config file contains a [[tool.mypy.overrides]] section with a module value that is not a string or a list of strings\')\n        for module in modules:\n            module_overrides = override.copy()\n            del module_overrides[\'module\']\n            old_config_name = f\'mypy-{module}\'\n            if old_config_name not in result:\n                result[old_config_name] = module_overrides\n            else:\n                for new_key, new_value in module_overrides.items():\n                    if new_key in result[old_config_name] and result[old_config_name][new_key] != new_value:\n                        raise ConfigTOMLValueError(f"toml config file contains [[tool.mypy.overrides]] sections with conflicting values. Module \'{module}\' has two different values for \'{new_key}\'")\n                    result[old_config_name][new_key] = new_value\n    del result[\'mypy\'][\'overrides\']\n    return result'
 
+# _find_config_file, transcribed by C17.Model.find_config_file / walk_up: pinned verbatim
+FIND_CONFIG_FILE_SRC = "def _find_config_file(stderr: TextIO | None=None) -> tuple[MutableMapping[str, Any], dict[str, _INI_PARSER_CALLABLE], str] | None:\n    current_dir = os.path.abspath(os.getcwd())\n    while True:\n        for name in defaults.CONFIG_NAMES + defaults.SHARED_CONFIG_NAMES:\n            config_file = os.path.relpath(os.path.join(current_dir, name))\n            ret = _parse_individual_file(config_file, stderr)\n            if ret is None:\n                continue\n            return ret\n        if any((os.path.exists(os.path.join(current_dir, cvs_root)) for cvs_root in ('.git', '.hg'))):\n            break\n        parent_dir = os.path.dirname(current_dir)\n        if parent_dir == current_dir:\n            break\n        current_dir = parent_dir\n    for config_file in defaults.USER_CONFIG_FILES:\n        ret = _parse_individual_file(config_file, stderr)\n        if ret is None:\n            continue\n        return ret\n    return None"
+
 PREFIX_MAP_SRC = '''
 for a, b in flag_prefix_pairs:
     flag_prefix_map[a] = b
@@ -296,6 +299,15 @@ def extract_config_parser(src: str) -> dict:
     for needle in ["for glob in globs.split(','):", "options.per_module_options[glob] = updates", "for name, section in parser.items():\n        if name.startswith('mypy-'):"]:
         if needle not in pcf:
             raise Unsupported(f"parse_config_file changed: missing `{needle}`")
+    if ast.unparse(_find(tree, ast.FunctionDef, "_find_config_file")) != FIND_CONFIG_FILE_SRC:
+        raise Unsupported("_find_config_file no longer has the transcribed shape")
+    pif = ast.unparse(_find(tree, ast.FunctionDef, "_parse_individual_file"))
+    for needle in ["if not os.path.exists(config_file):\n        return None", "if 'mypy' not in toml_data:\n                return None",
+                   "except (tomllib.TOMLDecodeError, configparser.Error, ConfigTOMLValueError) as err:\n        print(f'{config_file}: {err}', file=stderr)\n        return None",
+                   "if os.path.basename(config_file) in defaults.SHARED_CONFIG_NAMES and 'mypy' not in parser:\n        return None",
+                   "return (parser, config_types, config_file)"]:
+        if needle not in pif:
+            raise Unsupported(f"_parse_individual_file changed: missing `{needle[:50]}`")
     pv = ast.unparse(_find(tree, ast.FunctionDef, "parse_version"))
     for needle in ["m = re.match('\\\\A(\\\\d)\\\\.(\\\\d+)\\\\Z', str(v))", "if major == 2 and minor == 7:\n        pass", "elif major == 3:\n        if minor < defaults.PYTHON3_VERSION_MIN[1]:",
                    "raise VersionTypeError(msg, fallback=defaults.PYTHON3_VERSION_MIN)", "return (major, minor)"]:
@@ -386,6 +398,13 @@ def gen_flags() -> str:
     if not (isinstance(vmin, ast.Tuple) and len(vmin.elts) == 2 and all(isinstance(e, ast.Constant) and isinstance(e.value, int) for e in vmin.elts) and vmin.elts[0].value == 3):
         raise Unsupported("defaults.PYTHON3_VERSION_MIN is not (3, n)")
     out.append(f"Definition python3_min_minor : nat := {vmin.elts[1].value}.")
+    for nm, coqn in (("CONFIG_NAMES", "config_names"), ("SHARED_CONFIG_NAMES", "shared_config_names")):
+        v = _assign_value(dsrc, nm)
+        if not isinstance(v, ast.List):
+            raise Unsupported(f"defaults.{nm} is not a list literal")
+        out.append(f"Definition {coqn} : list string :=\n  " + coq_list([coq_str(_const_str(e, nm)) for e in v.elts]) + ".")
+    out.append("(* candidates of one directory in search order, with `is a shared name` *)\n"
+               "Definition candidate_names : list (string * bool) :=\n  map (fun n => (n, false)) config_names ++ map (fun n => (n, true)) shared_config_names.")
     # which config keys use the plain comma-list conversion in ini and try_split in toml
     lam = "lambda s: [p.strip() for p in split_commas(s)]"
     comma_keys = sorted(k for k, v in c["ini_conv"].items() if v == lam and c["toml_conv"].get(k) in ("try_split", "lambda s: try_split(s)"))
